@@ -227,5 +227,6 @@ def run(ctx):
                         ctx.violation('ResultIsDebyeSum', dict(det, rel_err=err, expected=ref[:4].tolist(), observed=om[:4].tolist(),
                                                               detail='omega differs from the direct Debye sum'))
     ctx.traces += nrun
+    ctx.exhaustive['binding: seeded trajectories'] = False
     ctx.stage('replay.Debyer', trajectories=len(cases), executions=nrun, omp_thread_counts=omps, chunk_tables=len(chunk_q))
     ctx.sample({'case': {k: (v if k in ('self', 'nthreads', 'dk', 'bins', 'm1') else '...') for k, v in cases[0].items()}})
